@@ -24,7 +24,7 @@ func init() {
 	Register(&Prop{
 		ID: "C02",
 		Rule: "pipelines of 1..4 requests (HTTP/1.1, or HTTP/1.0 with keep-alive) whose bodies (Content-Length, chunked, or chunked with a malformed chunk terminator; sizes around 0, the 8 KiB prefetch and MaxRequestBodySize) consist of well-formed 'GET /smuggled' requests, " +
-			"handlers reading none / k / all of the body (streaming on and off), taking it through Request.Body(), dropping it with ResetBody / SetBody, and ending normally, with an error status, or through TimeoutError / TimeoutErrorWithResponse, Expect: 100-continue accepted or rejected by ContinueHandler or ExpectHandler, random arrival chunking, followed by a sentinel request; " +
+			"handlers reading none / k / all of the body (streaming on and off), taking it through Request.Body(), dropping it with ResetBody / SetBody, going back to it after EOF (another Read, PostArgs, Body), and ending normally, with an error status, or through TimeoutError / TimeoutErrorWithResponse, Expect: 100-continue accepted or rejected by ContinueHandler or ExpectHandler, random arrival chunking, followed by a sentinel request; " +
 			"monitor: the dispatched targets are a prefix of the planned ones (a body byte parsed as a request shows up as /smuggled or as garbage); non-trivial = some request carries a body; distinct = distinct input",
 		Parallel: true,
 		Build: func(kind string, a [][]byte) *Case {
@@ -81,6 +81,9 @@ func init() {
 					}
 					if end == "rsb=1" || end == "sb=1" {
 						acts = append(acts, B("d"))
+					}
+					if end == "again=1" {
+						acts = append(acts, B("a"), B("d")) // Request.Body() drains whatever is left and closes the stream
 					}
 					lines = append(lines, Line("rskeep", append([][]byte{N(size), N(min(size, 8192))}, acts...)...))
 					modelIdx = append(modelIdx, i-1)
@@ -190,7 +193,7 @@ func init() {
 					}
 					end := ""
 					if r.Chance(20) {
-						end = r.Pick([]string{"te=1", "ter=0", "te=1", "sc=503", "bc=1", "bc=1", "rsb=1", "rsb=1", "sb=1"})
+						end = r.Pick([]string{"te=1", "ter=0", "te=1", "sc=503", "bc=1", "bc=1", "rsb=1", "rsb=1", "sb=1", "again=1", "again=1"})
 					}
 					ver := ""
 					if r.Chance(12) {
